@@ -73,8 +73,9 @@ impl IsoExtensions3 for Iso3 {
     ///
     /// returns: Result<Isometry<f64, Unit<Quaternion<f64>>, 3>, Box<dyn Error, Global>>
     fn try_from_basis_xy(e0: &Vector3, e1: &Vector3, origin: Option<Point3>) -> Result<Iso3> {
-        let e0 = e0.try_normalize(1e-10).ok_or("Could not normalize e0")?;
-        let e2 = e0.cross(e1).try_normalize(1e-10).ok_or("Could not normalize e2")?;
+        let e0 = direction(e0).ok_or("Could not normalize e0")?;
+        let e1 = direction(e1).ok_or("Could not normalize e1")?;
+        let e2 = e0.cross(&e1).try_normalize(1e-10).ok_or("Could not normalize e2")?;
         let e1 = e2.cross(&e0).try_normalize(1e-10).ok_or("Could not normalize e1")?;
 
         from_bases(e0, e1, e2, origin)
@@ -103,7 +104,8 @@ impl IsoExtensions3 for Iso3 {
     ///
     /// returns: Result<Isometry<f64, Unit<Quaternion<f64>>, 3>, Box<dyn Error, Global>>
     fn try_from_basis_xz(e0: &Vector3, e2: &Vector3, origin: Option<Point3>) -> Result<Iso3> {
-        let e0 = e0.try_normalize(1e-10).ok_or("Could not normalize e0")?;
+        let e0 = direction(e0).ok_or("Could not normalize e0")?;
+        let e2 = direction(e2).ok_or("Could not normalize e2")?;
         let e1 = e2.cross(&e0).try_normalize(1e-10).ok_or("Could not normalize e1")?;
         let e2 = e0.cross(&e1).try_normalize(1e-10).ok_or("Could not normalize e2")?;
         from_bases(e0, e1, e2, origin)
@@ -132,7 +134,8 @@ impl IsoExtensions3 for Iso3 {
     ///
     /// returns: Result<Isometry<f64, Unit<Quaternion<f64>>, 3>, Box<dyn Error, Global>>
     fn try_from_basis_yz(e1: &Vector3, e2: &Vector3, origin: Option<Point3>) -> Result<Iso3> {
-        let e1 = e1.try_normalize(1e-10).ok_or("Could not normalize e1")?;
+        let e1 = direction(e1).ok_or("Could not normalize e1")?;
+        let e2 = direction(e2).ok_or("Could not normalize e2")?;
         let e0 = e1.cross(&e2).try_normalize(1e-10).ok_or("Could not normalize e0")?;
         let e2 = e0.cross(&e1).try_normalize(1e-10).ok_or("Could not normalize e2")?;
         from_bases(e0, e1, e2, origin)
@@ -161,7 +164,8 @@ impl IsoExtensions3 for Iso3 {
     ///
     /// returns: Result<Isometry<f64, Unit<Quaternion<f64>>, 3>, Box<dyn Error, Global>>
     fn try_from_basis_yx(e1: &Vector3, e0: &Vector3, origin: Option<Point3>) -> Result<Iso3> {
-        let e1 = e1.try_normalize(1e-10).ok_or("Could not normalize e1")?;
+        let e1 = direction(e1).ok_or("Could not normalize e1")?;
+        let e0 = direction(e0).ok_or("Could not normalize e0")?;
         let e2 = e0.cross(&e1).try_normalize(1e-10).ok_or("Could not normalize e2")?;
         let e0 = e1.cross(&e2).try_normalize(1e-10).ok_or("Could not normalize e0")?;
         from_bases(e0, e1, e2, origin)
@@ -190,7 +194,8 @@ impl IsoExtensions3 for Iso3 {
     ///
     /// returns: Result<Isometry<f64, Unit<Quaternion<f64>>, 3>, Box<dyn Error, Global>>
     fn try_from_basis_zx(e2: &Vector3, e0: &Vector3, origin: Option<Point3>) -> Result<Iso3> {
-        let e2 = e2.try_normalize(1e-10).ok_or("Could not normalize e2")?;
+        let e2 = direction(e2).ok_or("Could not normalize e2")?;
+        let e0 = direction(e0).ok_or("Could not normalize e0")?;
         let e1 = e2.cross(&e0).try_normalize(1e-10).ok_or("Could not normalize e2")?;
         let e0 = e1.cross(&e2).try_normalize(1e-10).ok_or("Could not normalize e0")?;
         from_bases(e0, e1, e2, origin)
@@ -219,7 +224,8 @@ impl IsoExtensions3 for Iso3 {
     ///
     /// returns: Result<Isometry<f64, Unit<Quaternion<f64>>, 3>, Box<dyn Error, Global>>
     fn try_from_basis_zy(e2: &Vector3, e1: &Vector3, origin: Option<Point3>) -> Result<Iso3> {
-        let e2 = e2.try_normalize(1e-10).ok_or("Could not normalize e2")?;
+        let e2 = direction(e2).ok_or("Could not normalize e2")?;
+        let e1 = direction(e1).ok_or("Could not normalize e1")?;
         let e0 = e1.cross(&e2).try_normalize(1e-10).ok_or("Could not normalize e0")?;
         let e1 = e2.cross(&e0).try_normalize(1e-10).ok_or("Could not normalize e2")?;
         from_bases(e0, e1, e2, origin)
@@ -235,6 +241,18 @@ impl IsoExtensions3 for Iso3 {
 
     fn from_rz(angle: f64) -> Iso3 {
         Iso3::rotation(Vector3::z() * angle)
+    }
+}
+
+/// The unit vector of a direction given at any length. The arguments of the frame constructors are
+/// directions, so only a zero (or non-finite) vector is refused; whether two directions are
+/// independent is then decided on unit vectors, where the 1e-10 below is the sine of an angle.
+fn direction(v: &Vector3) -> Option<Vector3> {
+    let n = v.norm();
+    if n > 0.0 && n.is_finite() {
+        Some(v / n)
+    } else {
+        None
     }
 }
 
